@@ -17,7 +17,11 @@ pub fn build_ps(t: &Value, order: Option<&[usize]>) -> PauliString {
     let ops = t["ops"].as_array().unwrap();
     let mut ps = PauliString::new(cx(&t["coef"]));
     let idx: Vec<usize> = match order { Some(o) => o.to_vec(), None => (0..ops.len()).collect() };
-    for i in idx {
+    // optional "used_after": [j, n]: after its first j factors the string is USED once (applied to |0..0> of n qubits, result dropped)
+    // and cloned, and only then extended with the remaining factors - a string is its current factors, whatever it did before
+    let used_after = t.get("used_after").and_then(|u| u.as_array()).map(|u| (vu(&u[0]), vu(&u[1])));
+    for (k, i) in idx.into_iter().enumerate() {
+        if let Some((j, n)) = used_after { if k == j { if let Ok(z) = State::new_zero(n) { let _ = ps.apply(&z); let _ = ps.to_gates(); } ps = ps.clone(); } }
         let o = &ops[i];
         ps.add_op(vu(&o[0]), pauli_of(o[1].as_str().unwrap()));
     }
